@@ -167,6 +167,13 @@ def build_designspace(axes, sources, rules=None, lib=None, instances=None, modul
                                           RuleDescriptor, SourceDescriptor)
     ds = DesignSpaceDocument()
     for a in axes:
+        if "values" in a:  # discrete axis
+            from fontTools.designspaceLib import DiscreteAxisDescriptor
+            ad = DiscreteAxisDescriptor()
+            ad.name, ad.tag = a["name"], a.get("tag", a["name"][:4].lower().ljust(4))
+            ad.values, ad.default = list(a["values"]), a["default"]
+            ds.addAxis(ad)
+            continue
         ad = AxisDescriptor()
         ad.name = a["name"]
         ad.tag = a.get("tag", a["name"][:4].lower().ljust(4))
